@@ -373,7 +373,8 @@ pub fn run_c18(tier: Tier, seed: u64, known: &KnownFindings) -> CheckReport {
     let w = TemplateWorld { prop: "C18", world_name: "templates-c18", kinds: vec![Kind::Pso], penalty: 0.2, faults: FaultMix::SwarmResize, max_iters: (25, 80), evaluations_term: false, log: false, compound_term: true, key_steps: &["ParticleVelocitiesUpdate"] };
     let b = run_batch(&w, &mk("C18", "pso-runs", seed, tier, tier.pick(150_000, 3_000_000), known));
     let b2 = run_batch(&crate::checks::swarms::TwoSwarms, &mk("C18", "two-swarms", seed, tier, tier.pick(20_000, 400_000), known));
-    report("C18", tier, seed, "two-swarms: the identifier variants of the PSO components composed into a two-swarm search (swarm Global and swarm A, 1..8 particles each, own population on the stack, own velocities and best memories, RotatePopulations between them); a harness component records the best position every particle of every swarm was evaluated at, and after every swarm's update its personal bests must be exactly those, its global best the best of them, and its three collections aligned. PSO template runs over swarm sizes 1..12, dimension 1..5, c1,c2 in {0} u (0,3], weights in [0,1.2], v_max from 1e-3 to 10 domain widths; after every velocity update: |v| <= v_max, x_after == x_before + v_after exactly, v_after within the interval the update rule allows for the STORED inertia weight (an equality when c1 = c2 = 0); after the linear mapping: weight == start + (end-start)*progress exactly; personal best == best value the particle was ever evaluated at, never worse; global best value == min personal best; the three collections have equal length after every step; non-trivial = at least one velocity update executed", vec![b, b2], &[])
+    let b3 = run_batch(&crate::checks::c08::SeqVsPar { prop: "C18", name: "seq-vs-par-c18", mix: false }, &mk("C18", "pso-parallel-evaluator", seed, tier, tier.pick(800, 30_000), known));
+    report("C18", tier, seed, "two-swarms: the identifier variants of the PSO components composed into a two-swarm search (swarm Global and swarm A, 1..8 particles each, own population on the stack, own velocities and best memories, RotatePopulations between them); a harness component records the best position every particle of every swarm was evaluated at, and after every swarm's update its personal bests must be exactly those, its global best the best of them, and its three collections aligned. PSO template runs over swarm sizes 1..12, dimension 1..5, c1,c2 in {0} u (0,3], weights in [0,1.2], v_max from 1e-3 to 10 domain widths; after every velocity update: |v| <= v_max, x_after == x_before + v_after exactly, v_after within the interval the update rule allows for the STORED inertia weight (an equality when c1 = c2 = 0); after the linear mapping: weight == start + (end-start)*progress exactly; personal best == best value the particle was ever evaluated at, never worse; global best value == min personal best; the three collections have equal length after every step; non-trivial = at least one velocity update executed. pso-parallel-evaluator: the same swarm monitors while the particles' objective values are written by evaluate::Parallel on 1..8 simulated workers under seeded schedules", vec![b, b2, b3], &["problems::evaluate::Parallel on the simulated pool (parallel batch)"])
 }
 
 pub fn run_c19(tier: Tier, seed: u64, known: &KnownFindings) -> CheckReport {
